@@ -57,11 +57,13 @@ theorem byNameOne_eq_at (c : Cfg) (args : List PV) (kw : List (Name × PV)) (s :
     positional prefix and keywords, the keywords in any order, values omitted or None —: whenever the body runs, the
     binding it observes is the by-name binding `byName` of the specification (caller value unless `ignore_input`, else
     external value, else Parameter default, else signature default; KWARGS_WITHOUT_NONE additionally omits None values
-    so that signature defaults apply), and nothing lands in `*args`. -/
+    so that signature defaults apply), and nothing lands in `*args`.  Plain functions and methods alike, whatever the
+    parameters and the keywords of the call are named: the receiver of a method is recognised by the signature (first parameter
+    called `self`), so a keyword or an ordinary parameter called `self` is bound by name like every other.  (Before the repair
+    of `selfKeywordBypassesGate` this needed the guard `selfIsReceiver`.) -/
 theorem binding_is_by_name (c : Cfg) (isAsync : Bool) (m : Mode) (args : List PV) (kw : List (Name × PV)) (b : Binding)
     (hva : c.sig.varArgs = false)
     (hkw : (kw.map (·.1)).Nodup) (hsig : (c.sig.named.map (·.name)).Nodup) (hps : (c.ps.map (·.name)).Nodup)
-    (hself : selfIsReceiver c kw = true)
     (hrun : runValidate c isAsync m args kw = .ok b) :
     byName c m args kw = .ok b.named ∧ b.extras = [] := by
   simp only [runValidate, bind, Except.bind] at hrun
@@ -72,8 +74,7 @@ theorem binding_is_by_name (c : Cfg) (isAsync : Bool) (m : Mode) (args : List PV
     simp only at hrun
     have hnd := wrapperContent_keysNodup c args kw res hw
     have hg := res_get' c args kw res hva hkw (posNames_nodup c.sig hsig) hps hw
-    have hselfres := self_in_res c args kw res hva hkw (posNames_nodup c.sig hsig) hps hself hw
-    rw [dispatch_eq_bindDict c.sig isAsync m res hva hnd hselfres] at hrun
+    have hrun := dispatch_ok_bindDict c.sig isAsync m res b hva hrun
     generalize hd : (if m = .kwWithoutNone then withoutNone res else res) = d at hrun
     unfold bindDict at hrun
     by_cases hbad : d.any (notParam c.sig) = true
@@ -127,7 +128,7 @@ theorem mode_independent (c : Cfg) (a : Bool) (args : List PV) (kw : List (Name 
   funext res
   rw [dispatch_unfold, dispatch_unfold]
   simp only
-  rw [callWith_split_eq c.sig res hva, callWith_kw_eq]
+  rw [callWith_split_eq c.sig _ res hva, callWith_kw_eq]
 
 /-- **C13 (modes).** KWARGS_WITHOUT_NONE is KWARGS_WITH_NONE applied to the dict without its None entries (so that
     Python's signature defaults apply to them) — any signature, no hypothesis. -/
@@ -140,13 +141,81 @@ theorem async_same_as_sync (c : Cfg) (m : Mode) (args : List PV) (kw : List (Nam
     runValidate c true m args kw = runValidate c false m args kw := by
   simp only [runValidate, dispatch_unfold]
 
-theorem byName_congr (c : Cfg) (m : Mode) (args1 args2 : List PV) (kw1 kw2 : List (Name × PV))
-    (h : ∀ n, callerInput c.sig args1 kw1 n = callerInput c.sig args2 kw2 n) :
-    byName c m args1 kw1 = byName c m args2 kw2 := by
-  unfold byName
-  apply mapM_congr
-  intro s _
-  simp only [byNameBind, byNameOne, h s.name]
+/-- the per-parameter by-name rule, when it binds at all, does not depend on the *style* of the call: two calls that supply the
+    same value for the name yield the same result (under `strict` the one exception is the receiver of a method, which needs no
+    declared Parameter when bound positionally and is an argument like every other when passed by keyword — then one of the two
+    calls is refused) -/
+theorem byNameOne_ok_congr (c : Cfg) (args1 args2 : List PV) (kw1 kw2 : List (Name × PV)) (s : SParam)
+    (h : callerInput c.sig args1 kw1 s.name = callerInput c.sig args2 kw2 s.name) (r1 r2 : Option PV)
+    (h1 : byNameOne c args1 kw1 s = .ok r1) (h2 : byNameOne c args2 kw2 s = .ok r2) : r1 = r2 := by
+  unfold byNameOne at h1 h2
+  rw [h] at h1
+  cases hf : findP c.ps s.name with
+  | some p => rw [hf] at h1 h2; rw [h1] at h2; exact Except.ok.inj h2
+  | none =>
+    rw [hf] at h1 h2
+    simp only at h1 h2
+    cases hin : (if c.ignoreInput = true then none else callerInput c.sig args2 kw2 s.name) with
+    | none => rw [hin] at h1 h2; simp only [Except.ok.injEq] at h1 h2; rw [← h1, ← h2]
+    | some v =>
+      rw [hin] at h1 h2
+      simp only at h1 h2
+      split at h1
+      · cases h1
+      · split at h2
+        · cases h2
+        · simp only [Except.ok.injEq] at h1 h2; rw [← h1, ← h2]
+
+theorem mapM_ok_unique {α β ε : Type} (f g : α → Except ε β) : ∀ (l : List α) (a b : List β),
+    (∀ s ∈ l, ∀ x y, f s = .ok x → g s = .ok y → x = y) → l.mapM f = .ok a → l.mapM g = .ok b → a = b := by
+  intro l
+  induction l with
+  | nil =>
+    intro a b _ ha hb
+    simp only [List.mapM_nil, pure, Except.pure, Except.ok.injEq] at ha hb
+    rw [← ha, ← hb]
+  | cons s l ih =>
+    intro a b hp ha hb
+    simp only [List.mapM_cons, bind, Except.bind] at ha hb
+    cases hfs : f s with
+    | error e => rw [hfs] at ha; cases ha
+    | ok x =>
+      cases hgs : g s with
+      | error e => rw [hgs] at hb; cases hb
+      | ok y =>
+        rw [hfs] at ha; rw [hgs] at hb
+        simp only at ha hb
+        cases hlf : l.mapM f with
+        | error e => rw [hlf] at ha; cases ha
+        | ok xs =>
+          cases hlg : l.mapM g with
+          | error e => rw [hlg] at hb; cases hb
+          | ok ys =>
+            rw [hlf] at ha; rw [hlg] at hb
+            simp only [pure, Except.pure, Except.ok.injEq] at ha hb
+            have e1 : x = y := hp s (by simp) x y hfs hgs
+            have e2 : xs = ys := ih xs ys (fun s' hs' => hp s' (by simp [hs'])) hlf hlg
+            rw [← ha, ← hb, e1, e2]
+
+/-- two calls that supply the same value for every name have the same by-name binding — whenever both have one -/
+theorem byName_ok_congr (c : Cfg) (m : Mode) (args1 args2 : List PV) (kw1 kw2 : List (Name × PV)) (n1 n2 : Assoc)
+    (h : ∀ n, callerInput c.sig args1 kw1 n = callerInput c.sig args2 kw2 n)
+    (h1 : byName c m args1 kw1 = .ok n1) (h2 : byName c m args2 kw2 = .ok n2) : n1 = n2 := by
+  unfold byName at h1 h2
+  refine mapM_ok_unique _ _ c.sig.named n1 n2 ?_ h1 h2
+  intro s _ x y hx hy
+  simp only [byNameBind, bind, Except.bind] at hx hy
+  cases ho1 : byNameOne c args1 kw1 s with
+  | error e => rw [ho1] at hx; cases hx
+  | ok r1 =>
+    cases ho2 : byNameOne c args2 kw2 s with
+    | error e => rw [ho2] at hy; cases hy
+    | ok r2 =>
+      have := byNameOne_ok_congr c args1 args2 kw1 kw2 s (h s.name) r1 r2 ho1 ho2
+      subst this
+      rw [ho1] at hx; rw [ho2] at hy
+      rw [hx] at hy
+      exact Except.ok.inj hy
 
 /-- **C13 (call style).** Two calls that supply the same value for every name — whatever the split into positional
     prefix and keywords, whatever the keyword order — make the body observe the same binding. -/
@@ -154,17 +223,15 @@ theorem call_style_independent (c : Cfg) (a1 a2 : Bool) (m : Mode) (args1 args2 
     (b1 b2 : Binding)
     (hva : c.sig.varArgs = false) (hsig : (c.sig.named.map (·.name)).Nodup) (hps : (c.ps.map (·.name)).Nodup)
     (hkw1 : (kw1.map (·.1)).Nodup) (hkw2 : (kw2.map (·.1)).Nodup)
-    (hself1 : selfIsReceiver c kw1 = true) (hself2 : selfIsReceiver c kw2 = true)
     (hsame : ∀ n, callerInput c.sig args1 kw1 n = callerInput c.sig args2 kw2 n)
     (h1 : runValidate c a1 m args1 kw1 = .ok b1) (h2 : runValidate c a2 m args2 kw2 = .ok b2) :
     b1 = b2 := by
-  obtain ⟨n1, e1⟩ := binding_is_by_name c a1 m args1 kw1 b1 hva hkw1 hsig hps hself1 h1
-  obtain ⟨n2, e2⟩ := binding_is_by_name c a2 m args2 kw2 b2 hva hkw2 hsig hps hself2 h2
-  rw [byName_congr c m args1 args2 kw1 kw2 hsame, n2] at n1
-  simp only [Except.ok.injEq] at n1
+  obtain ⟨n1, e1⟩ := binding_is_by_name c a1 m args1 kw1 b1 hva hkw1 hsig hps h1
+  obtain ⟨n2, e2⟩ := binding_is_by_name c a2 m args2 kw2 b2 hva hkw2 hsig hps h2
+  have hn := byName_ok_congr c m args1 args2 kw1 kw2 _ _ hsame n1 n2
   cases b1; cases b2
-  simp only at n1 e1 e2
-  simp [n1, e1, e2]
+  simp only at hn e1 e2
+  simp [hn, e1, e2]
 
 /-- **C13 (sources).** An external source supplies the value only when the caller did not pass one: a caller value for
     a declared parameter is what goes through the chain and is filed (whatever the source holds); … -/
@@ -223,7 +290,7 @@ example : runValidate exCfg false .kwWithoutNone [] [(2, .obj 100), (3, .obj 101
 -- the hypotheses of the main theorem are satisfiable, and its conclusion is the by-name binding
 example : byName exCfg .args [.obj 100] [(3, .obj 101)] = .ok [(2, .obj 801), (3, .obj 809)] :=
   (binding_is_by_name exCfg false .args [.obj 100] [(3, .obj 101)] ⟨[(2, .obj 801), (3, .obj 809)], []⟩ rfl (by decide) (by decide)
-    (by decide) (by decide) rfl).1
+    (by decide) rfl).1
 
 /-- `b` not required, falsy non-None value `obj 1` (Python `0`) under KWARGS_WITHOUT_NONE: it is *kept* (the filter is
     `is not None`, not truthiness), while None is dropped and the signature default applies -/
@@ -233,14 +300,32 @@ example : runValidate exCfg2 false .kwWithoutNone [.obj 100] [(3, .obj 1)] = .ok
 example : runValidate exCfg2 false .kwWithoutNone [.obj 100] [(3, .none)] = .ok ⟨[(2, .obj 100), (3, .obj 50)], []⟩ := by rfl
 example : runValidate exCfg2 false .kwWithNone [.obj 100] [(3, .none)] = .ok ⟨[(2, .obj 100), (3, .none)], []⟩ := by rfl
 
-/-- **why `selfIsReceiver` is a hypothesis** (negation witness for the statement without it): a *plain function*
-    `def f(a=<obj 60>, b=<obj 50>)` with `@validate(Parameter('b', required=False), strict=False)`, called `f(self=5)`:
-    the surplus keyword `self` is popped and passed positionally, the body sees `a = 5` — whereas by name `a` keeps its
-    default (and Python itself would refuse the keyword). -/
+/-- **the region of the former finding `selfKeywordBypassesGate`, repaired**: a *plain function*
+    `def f(a=<obj 60>, b=<obj 50>)` with `@validate(Parameter('b', required=False), strict=False)`, called `f(self=5)`: the
+    function has no receiver, the surplus keyword `self` is passed by name like every other undeclared keyword and Python
+    refuses it — the body does not run.  (Before the repair it was popped and passed positionally: the body saw `a = 5`, whereas
+    by name `a` keeps its default.) -/
 def exCfgSelf : Cfg :=
   { ps := [⟨3, false, none, none, none, [], false, by decide⟩],
     sig := { pos := [⟨2, some (.obj 60)⟩, ⟨3, some (.obj 50)⟩], varArgs := false, kwOnly := [] }, strict := false, ignoreInput := false, req := .noContext }
-example : runValidate exCfgSelf false .kwWithNone [] [(selfName, .obj 5)] = .ok ⟨[(2, .obj 5), (3, .obj 50)], []⟩ := by rfl
-example : byName exCfgSelf .kwWithNone [] [(selfName, .obj 5)] = .ok [(2, .obj 60), (3, .obj 50)] := by rfl
+example : runValidate exCfgSelf false .kwWithNone [] [(selfName, .obj 5)] = .error .bodyTypeError := by rfl
+example : runValidate exCfgSelf true .args [] [(selfName, .obj 5)] = .error .bodyTypeError := by rfl
+
+/-- a method `def f(self, a, b=<obj 50>)`: the receiver positionally or by keyword, the other arguments in any style — the
+    same by-name binding -/
+def exCfgMethod : Cfg :=
+  { exCfg with sig := { pos := [⟨selfName, none⟩, ⟨2, none⟩, ⟨3, some (.obj 50)⟩], varArgs := false, kwOnly := [] }, strict := false }
+example : runValidate exCfgMethod false .args [.obj 90, .obj 100] [(3, .obj 101)]
+    = .ok ⟨[(selfName, .obj 90), (2, .obj 801), (3, .obj 809)], []⟩ := by rfl
+example : runValidate exCfgMethod false .kwWithoutNone [] [(3, .obj 101), (selfName, .obj 90), (2, .obj 100)]
+    = .ok ⟨[(selfName, .obj 90), (2, .obj 801), (3, .obj 809)], []⟩ := by rfl
+example : byName exCfgMethod .args [.obj 90, .obj 100] [(3, .obj 101)] = .ok [(selfName, .obj 90), (2, .obj 801), (3, .obj 809)] := by rfl
+-- an ordinary parameter called `self` in a non-first position: bound by name in every style and mode
+def exCfgSelfLast : Cfg :=
+  { exCfg with sig := { pos := [⟨2, none⟩, ⟨3, some (.obj 50)⟩, ⟨selfName, some (.obj 60)⟩], varArgs := false, kwOnly := [] }, strict := false }
+example : runValidate exCfgSelfLast false .args [.obj 100, .obj 101, .obj 5] []
+    = .ok ⟨[(2, .obj 801), (3, .obj 809), (selfName, .obj 5)], []⟩ := by rfl
+example : runValidate exCfgSelfLast false .kwWithNone [.obj 100] [(selfName, .obj 5), (3, .obj 101)]
+    = .ok ⟨[(2, .obj 801), (3, .obj 809), (selfName, .obj 5)], []⟩ := by rfl
 
 end PedVerif.Validate
